@@ -19,8 +19,15 @@ const (
 	PtrIface    = NumTypes + 6 // *I0, a pointer to an interface type: concrete, implemented by nothing
 	ArrA        = NumTypes + 7 // [1]uint64, an unnamed array type (token in element 0)
 	ArrB        = NumTypes + 8 // [2]uint64, another one
-	NumTypesAll = NumTypes + 9
+	IfaceWide   = NumTypes + 9 // IW, an interface that embeds the method sets of I0 and I1 (implemented by T2)
+	NumTypesAll = NumTypes + 10
 )
+
+// IW is wider than I0 and I1: a value declared as IW implements both.
+type IW interface {
+	M0()
+	M1()
+}
 
 // B0 is a defined type over an unnamed composite type: B0 values are
 // assignable to []uint64 and vice versa, yet the two are different types.
@@ -34,14 +41,17 @@ func (e TE) Error() string { return fmt.Sprintf("TE#%d", e.ID) }
 
 func init() {
 	Types = append(Types, reflect.TypeOf(alt.T0{}), reflect.TypeOf(alt.T1{}), reflect.TypeOf((*error)(nil)).Elem(), reflect.TypeOf(TE{}), reflect.TypeOf(B0{}), reflect.TypeOf([]uint64{}),
-		reflect.PtrTo(Types[IfaceBase]), reflect.TypeOf([1]uint64{}), reflect.TypeOf([2]uint64{}))
+		reflect.PtrTo(Types[IfaceBase]), reflect.TypeOf([1]uint64{}), reflect.TypeOf([2]uint64{}),
+		reflect.TypeOf((*IW)(nil)).Elem())
 	for i, t := range Types {
 		simrt.RegisterType(t, i)
 	}
 }
 
 // IsIface reports whether pool type t is an interface type.
-func IsIface(t int) bool { return (t >= IfaceBase && t < IfaceBase+NumIface) || t == ErrIface }
+func IsIface(t int) bool {
+	return (t >= IfaceBase && t < IfaceBase+NumIface) || t == ErrIface || t == IfaceWide
+}
 
 // Implements reports whether pool type s can be assigned to pool type p.
 func Implements(s, p int) bool {
@@ -51,10 +61,10 @@ func Implements(s, p int) bool {
 	if !IsIface(p) {
 		return false
 	}
-	if s >= TwinBase && s != ErrImpl {
+	if s >= TwinBase && s != ErrImpl && s != IfaceWide {
 		return false
 	}
-	if p >= TwinBase && p != ErrIface {
+	if p >= TwinBase && p != ErrIface && p != IfaceWide {
 		return false
 	}
 	return Types[s].Implements(Types[p])
